@@ -57,8 +57,38 @@ Example C02_model_run_recovers :
   flat_lookup (r_fs (l_r l)) [100] = Some f /\ l_sr l = [] /\ l_rs l = [].
 Proof. vm_compute. auto 10. Qed.
 
+(* the closing steps of the exchange, on the transaction models: (a) a receiver holding the
+   metadata, the EOF and every byte finalises at once - Finished phase, Finished PDU ready, NAK
+   timer stopped; (b) a sender handed that Finished PDU reports it to its user, has the send arm
+   enabled, answers with ACK(Finished) and is Terminated; (c) a receiver in the Finished or
+   Cancelled phase that gets the ACK(Finished) is Terminated *)
+From CFDP Require Import Proofs.ClosingP.
+Theorem C02_closing_receiver_completes : forall FS fs_write_file fs_exec resp_fail not_performed cksum now (s : rstate FS),
+  r_phase s = RecvData -> is_some (r_meta s) = true -> eof_received s = true ->
+  (is_file_transfer s && has_naks s) = false ->
+  let s' := check_finished FS fs_write_file fs_exec resp_fail not_performed cksum now s in
+  r_phase s' = RFinished /\ fin_flag s' = true /\ c_paused (t_nak (r_timer s')) = true.
+Proof. exact receiver_completes_when_nothing_missing. Qed.
+Theorem C02_closing_sender_acks_and_ends : forall cksum resp_len req_len now now' f (s : sstate),
+  cfg_mode (s_cfg s) = Acked -> s_state s <> TSuspended ->
+  let s1 := fst (s_process_pdu now (PFinished f) s) in
+  s_phase s1 = SFinished /\ s_has_pdu_to_send s1 = true /\
+  (exists rep, In (OInd (IFinished rep (fin_fs f) (fin_dc f) (fin_resps f))) (s_out s1)) /\
+  let s2 := fst (s_send_pdu cksum resp_len req_len now' (set_s_prompt None s1)) in
+  s_state s2 = TTerminated /\
+  exists p a, In (OPdu p) (s_out s2) /\ o_payload p = PAck a /\ ack_dir a = DirFinished /\ ack_sub a = SubFinished.
+Proof. exact sender_acks_finished_and_ends. Qed.
+Theorem C02_closing_receiver_ends_on_ack : forall FS fs_write_file fs_exec resp_fail not_performed cksum now a (s : rstate FS),
+  cfg_mode (r_cfg s) = Acked -> r_phase s = RFinished \/ r_phase s = RCancelled ->
+  ack_dir a = DirFinished -> ack_sub a = SubFinished ->
+  r_state (fst (process_pdu FS fs_write_file fs_exec resp_fail not_performed cksum now (PAck a) s)) = TTerminated.
+Proof. exact receiver_ends_on_ack_finished. Qed.
+
 Print Assumptions C02_one_clean_round_suffices.
 Print Assumptions C02_any_order_any_duplication.
 Print Assumptions C02_pieces_cover_request.
 Print Assumptions C02_requests_exactly_what_is_missing.
 Print Assumptions C02_timer_gives_up_only_at_limit.
+Print Assumptions C02_closing_receiver_completes.
+Print Assumptions C02_closing_sender_acks_and_ends.
+Print Assumptions C02_closing_receiver_ends_on_ack.
